@@ -158,7 +158,7 @@ func C10(c *core.Ctx) {
 		b, isB := v.(*ssa.BinOp)
 		okIdx := false
 		if isB && b.Op == token.ADD {
-			if phi, ok := b.X.(*ssa.Phi); ok && phi.Comment == "rangeindex" {
+			if phi, ok := b.X.(*ssa.Phi); ok && loopHeader(phi.Block()) == phi.Block() {
 				okIdx = true
 			}
 		}
